@@ -122,7 +122,10 @@ let eval inp obs =
      nothing (the store keeps working), the last one really closes, one more is refused with an error *)
   let cached_top = (match lay with ["C"] :: rest ->
       List.for_all (fun l -> match l with ["F"; _] | ["X"; _; _] | ["E"; _] -> false | _ -> true) rest | _ -> false) in
-  let refs = ref 1 and must_work = ref false in
+  (* `dead`: the harness keeps using the handle of its FIRST open; once the count has dropped to zero that
+     handle's store is really closed and stays closed, whatever later opens (RO) do to the shared counter —
+     a closed handle is outside the contract, so nothing is demanded of Put/Get through it any more *)
+  let refs = ref 1 and must_work = ref false and dead = ref false in
   (* fallible on top (the only one, no real memorydb below, so nothing else panics): a Put/Close/Drop panics
      exactly when the counter is not positive; every one of them decrements it; Delete is not counted *)
   let fall_top = (match lay with ["F"; _] :: rest ->
@@ -139,8 +142,8 @@ let eval inp obs =
                               fail ("Close with no open handle left answered " ^ t ^ ", expected the error of cachedproducer"))
          else if !refs > 1 then begin
            if not (String.length t >= 6 && String.sub t 0 6 = "end:ok") then fail ("Close of one of several handles answered " ^ t);
-           decr refs; must_work := true
-         end else (decr refs; must_work := false)
+           decr refs; must_work := not !dead
+         end else (decr refs; must_work := false; dead := true)
        | ["DR"] -> must_work := false
        | ("G" | "H") :: _ -> if !must_work && t = "e6" then fail "the store is closed although another handle of the cached producer is still open"
        | ("P" | "D") :: _ -> if !must_work && (t = "panic" || t = "e6") then fail "the store is closed although another handle of the cached producer is still open"
